@@ -27,6 +27,8 @@ type rgIns struct {
 	Ms    []string `json:"ms,omitempty"`
 	Calls []rgCall `json:"calls,omitempty"`
 	V     bool     `json:"v"`
+	Cid   int      `json:"cid"` // cdecl / ccall: which Combo value
+	M     string   `json:"m"`   // ccall: the method added to it
 }
 
 type rgCase struct {
@@ -34,6 +36,7 @@ type rgCase struct {
 }
 
 type rgExec struct {
+	combos map[int]*flamego.ComboRoute
 	f    *flamego.Flame
 	ids  []int
 	rt   string
@@ -101,6 +104,24 @@ func (x *rgExec) exec(i int) int {
 			}
 		case "autohead":
 			x.f.AutoHead(ins.V)
+		case "cdecl":
+			// a Combo value that is kept: its methods are added later, possibly in another group scope
+			if x.combos == nil {
+				x.combos = map[int]*flamego.ComboRoute{}
+			}
+			x.combos[ins.Cid] = x.f.Combo(ins.Path, x.hs(ins.Hs)...)
+		case "ccall":
+			cb := x.combos[ins.Cid]
+			switch ins.M {
+			case "GET":
+				cb.Get(x.hs(ins.Hs)...)
+			case "POST":
+				cb.Post(x.hs(ins.Hs)...)
+			case "PUT":
+				cb.Put(x.hs(ins.Hs)...)
+			case "DELETE":
+				cb.Delete(x.hs(ins.Hs)...)
+			}
 		}
 		i++
 	}
@@ -203,6 +224,7 @@ func rgGen(seed int64, n int, args []string, out *json.Encoder) {
 			return o
 		}
 		depth := 0
+		cdecls := []int{}
 		used := map[string]bool{}
 		prefix := []string{}
 		k := 3 + rng.Intn(12)
@@ -241,6 +263,13 @@ func rgGen(seed int64, n int, args []string, out *json.Encoder) {
 			case r < 7:
 				p := rp([]string{"/a", "/b", "/d"})
 				ms := [][]string{{"POST"}, {"GET", "POST"}, {"PUT", "DELETE", "GET"}}[rng.Intn(3)]
+				if rng.Intn(10) == 0 {
+					// "*" inside a list stands for all nine methods; every entry of the list is validated (an unknown
+					// method or a method registered twice for the path must panic wherever it stands in the list)
+					ms = [][]string{{"*"}, {"*", "FOO"}, {"GET", "*"}, {"*", "GET"}, {"BREW"}, {"POST", "FOO"}, {"PATCH", "*"}}[rng.Intn(7)]
+					prog = append(prog, rgIns{Op: "route", Ms: ms, Path: p, Hs: hs(1 + rng.Intn(3))})
+					continue
+				}
 				ok := true
 				for _, m := range ms {
 					if used[m+full(p)] {
@@ -285,7 +314,17 @@ func rgGen(seed int64, n int, args []string, out *json.Encoder) {
 				}
 				prog = append(prog, rgIns{Op: "combo", Path: p, Hs: hs(rng.Intn(3)), Calls: calls})
 			default:
-				prog = append(prog, rgIns{Op: "autohead", V: rng.Intn(2) == 0})
+				switch {
+				case rng.Intn(3) == 0 && !rel() && len(cdecls) < 2:
+					cid := len(cdecls) + 1
+					cdecls = append(cdecls, cid)
+					prog = append(prog, rgIns{Op: "cdecl", Cid: cid, Path: []string{"/m", "/mm"}[rng.Intn(2)], Hs: hs(rng.Intn(3))})
+				case rng.Intn(2) == 0 && !rel() && len(cdecls) > 0:
+					// the routes of a Combo are registered where its method is called: with the groups open THERE
+					prog = append(prog, rgIns{Op: "ccall", Cid: cdecls[rng.Intn(len(cdecls))], M: []string{"GET", "POST", "PUT", "DELETE"}[rng.Intn(4)], Hs: hs(rng.Intn(3))})
+				default:
+					prog = append(prog, rgIns{Op: "autohead", V: rng.Intn(2) == 0})
+				}
 			}
 		}
 		for depth > 0 {
